@@ -1460,3 +1460,140 @@ pub fn c05(ctx: &mut Ctx, initial: &str, op_text: &str) {
     }
     ctx.nontrivial_cur();
 }
+
+// =====================================================================  C09
+
+fn segs_owned(p: &[u8]) -> (bool, Vec<Vec<u8>>) {
+    let (a, s) = model::segments(p);
+    (a, s.into_iter().map(|x| x.to_vec()).collect())
+}
+fn segs_show(s: &[Vec<u8>]) -> String {
+    format!("{:?}", s.iter().map(|x| String::from_utf8_lossy(x).to_string()).collect::<Vec<_>>())
+}
+/// actual == expected, or actual == ["."] ++ expected with expected[0] empty or containing ':'
+fn shield_eq(actual: &[Vec<u8>], expected: &[Vec<u8>]) -> bool {
+    if actual == expected { return true; }
+    actual.len() == expected.len() + 1 && actual[0] == b"." && actual[1..] == *expected && expected.first().map_or(false, |f| f.is_empty() || f.contains(&b':'))
+}
+/// strip a leading "." that can be a shield (lenient equivalence used by differentials)
+fn logical(segs: &[Vec<u8>]) -> Vec<Vec<u8>> {
+    if segs.len() > 1 && segs[0] == b"." && (segs[1].is_empty() || segs[1].contains(&b':')) { segs[1..].to_vec() } else { segs.to_vec() }
+}
+
+fn c09_feats(what: &str, p: &[u8], shape: &str) -> Feats {
+    let (abs, segs) = model::segments(p);
+    let n = model::norm_seq(abs, &segs);
+    vec![
+        ("family", FAM.into()),
+        ("entry", what.into()),
+        ("shape", shape.into()),
+        ("absolute", yn(abs)),
+        ("norm_first", match n.first() { None => "none".into(), Some(s) if s.is_empty() => "empty".into(), Some(s) if s.contains(&b':') => "colon".into(), Some(s) if *s == b".." => "dotdot".into(), _ => "plain".into() }),
+        ("last_raw_is_dot", yn(segs.last().map_or(false, |s| *s == b"." || *s == b".."))),
+    ]
+}
+
+pub fn c09(ctx: &mut Ctx, path: &str) {
+    let Ok(p) = Path::new(path) else { ctx.stratum("skipped:rejected-by-library"); return; };
+    let t = b(path);
+    let (abs, segs) = model::segments(t);
+    let want_seq: Vec<Vec<u8>> = model::norm_seq(abs, &segs).into_iter().map(|x| x.to_vec()).collect();
+    let want_text = model::norm_render(t);
+    ctx.stratum(if abs { "path:absolute" } else { "path:relative" });
+    ctx.stratum(&format!("nsegs:{}", if segs.len() > 16 { "17+" } else if segs.len() > 6 { "7-16" } else { "0-6" }));
+    if t.len() > 512 { ctx.stratum("len:513+"); }
+    if segs.iter().any(|s| *s == b"..") { ctx.stratum("has:dotdot"); }
+    if segs.iter().any(|s| s.is_empty()) { ctx.stratum("has:empty"); }
+    if want_seq.first().map_or(false, |s| s.is_empty() || s.contains(&b':')) { ctx.stratum("norm-first:needs-shield"); }
+    // 1. iterator
+    ctx.call("normalized_segments");
+    match crate::ctx::guard(|| { let it = p.normalized_segments(); let l = it.len(); let mut v = Vec::new(); for s in it { v.push(s.as_bytes().to_vec()); if v.len() > t.len() + 2 { break; } } (l, v) }) {
+        Err(m) => ctx.fail("C09.panic", c09_feats("normalized_segments", t, "standalone"), format!("normalized_segments of {} panicked: {}", show(t), m)),
+        Ok((l, v)) => {
+            if v != want_seq { ctx.fail("C09.sequence", c09_feats("normalized_segments", t, "standalone"), format!("normalized_segments of {} = {} but the left-to-right scan gives {}", show(t), segs_show(&v), segs_show(&want_seq))); }
+            if l != want_seq.len() { ctx.fail("C09.sequence", c09_feats("normalized_segments.len", t, "standalone"), format!("normalized_segments().len() of {} = {} but the sequence has {} items", show(t), l, want_seq.len())); }
+        }
+    }
+    // 2. normalized copy
+    ctx.call("normalized");
+    match crate::ctx::guard(|| { let n = p.normalized(); let n2 = n.normalized(); (n.as_bytes().to_vec(), n2.as_bytes().to_vec()) }) {
+        Err(m) => ctx.fail("C09.panic", c09_feats("normalized", t, "standalone"), format!("normalized() of {} panicked: {}", show(t), m)),
+        Ok((n, n2)) => {
+            let (nabs, nsegs) = segs_owned(&n);
+            // expected segments of the copy: the sequence, plus the empty segment that spells the
+            // trailing '/' left by a final dot segment
+            let mut wsegs = want_seq.clone();
+            if segs.last().map_or(false, |l| *l == b"." || *l == b"..") && !want_seq.is_empty() { wsegs.push(Vec::new()); }
+            // text equality only counts when the rendering is faithful (keeps absoluteness)
+            let text_ok = n == want_text && (want_text.first() == Some(&b'/')) == abs;
+            if !valid(Prod::Path, &n) {
+                ctx.fail("C09.copy", c09_feats("normalized", t, "standalone"), format!("normalized() of {} = {} is not a valid path", show(t), show(&n)));
+            } else if nabs != abs {
+                ctx.fail("C09.absoluteness", c09_feats("normalized", t, "standalone"), format!("normalized() of {} = {} changes absoluteness", show(t), show(&n)));
+            } else if !(text_ok || shield_eq(&nsegs, &wsegs)) {
+                ctx.fail("C09.copy", c09_feats("normalized", t, "standalone"), format!("normalized() of {} = {} (segments {}) but the 5.2.4 rendering of the normalized sequence has segments {}", show(t), show(&n), segs_show(&nsegs), segs_show(&wsegs)));
+            }
+            if n2 != n { ctx.fail("C09.idempotent", c09_feats("normalized", t, "standalone"), format!("normalized() is not idempotent on {}: {} then {}", show(t), show(&n), show(&n2))); }
+        }
+    }
+    // 3. in place, stand-alone
+    if let Ok(mut pb) = PathBuf::new(own(path)) {
+        ctx.call("PathBuf::normalize");
+        match crate::ctx::guard(|| { pb.normalize(); let a = pb.as_bytes().to_vec(); pb.normalize(); (a, pb.as_bytes().to_vec()) }) {
+            Err(m) => ctx.fail("C09.panic", c09_feats("PathBuf::normalize", t, "standalone"), format!("PathBuf::normalize on {} panicked: {}", show(t), m)),
+            Ok((a, a2)) => {
+                let (aabs, asegs) = segs_owned(&a);
+                if !valid(Prod::Path, &a) {
+                    ctx.fail("C09.inplace", c09_feats("PathBuf::normalize", t, "standalone"), format!("PathBuf::normalize on {} = {} is not a valid path", show(t), show(&a)));
+                } else if aabs != abs {
+                    ctx.fail("C09.absoluteness", c09_feats("PathBuf::normalize", t, "standalone"), format!("PathBuf::normalize on {} = {} changes absoluteness", show(t), show(&a)));
+                } else if !(shield_eq(&asegs, &want_seq) || a == model::render_segments(abs, &want_seq.iter().map(|x| &x[..]).collect::<Vec<_>>())) {
+                    ctx.fail("C09.inplace", c09_feats("PathBuf::normalize", t, "standalone"), format!("PathBuf::normalize on {} = {} (segments {}) but the normalized sequence is {}", show(t), show(&a), segs_show(&asegs), segs_show(&want_seq)));
+                }
+                if a2 != a { ctx.fail("C09.idempotent", c09_feats("PathBuf::normalize", t, "standalone"), format!("normalize() is not idempotent on {}: {} then {}", show(t), show(&a), show(&a2))); }
+            }
+        }
+    }
+    // 4. embedded in every compatible enclosing shape
+    for (pre, shape) in [("", "----"), ("s:", "S---"), ("//h", "-A--"), ("s://h", "SA--"), ("//u@[::1]:8", "-A--")] {
+        for suf in ["", "?q#f", "#f"] {
+            let full = format!("{}{}{}", pre, path, suf);
+            if !valid(Prod::RiRef, b(&full)) || model::split(b(&full)).path != t { continue; }
+            let Ok(mut buf) = RiRefBuf::new(own(&full)) else { continue };
+            ctx.call("path_mut().normalize");
+            ctx.stratum(&format!("embedded:{}", shape));
+            let r = crate::ctx::guard(|| { buf.path_mut().normalize(); let a = buf.as_bytes().to_vec(); buf.path_mut().normalize(); (a, buf.as_bytes().to_vec()) });
+            match r {
+                Err(m) => ctx.fail("C09.panic", c09_feats("path_mut().normalize", t, shape), format!("path_mut().normalize() on {} panicked: {}", show(b(&full)), m)),
+                Ok((a, a2)) => {
+                    if std::str::from_utf8(&a).is_err() || !valid(Prod::RiRef, &a) {
+                        ctx.fail("C09.embedded-valid", c09_feats("path_mut().normalize", t, shape), format!("path_mut().normalize() on {} = {} which is not a valid reference", show(b(&full)), show(&a)));
+                        continue;
+                    }
+                    let b0 = model::split(b(&full));
+                    let a0 = model::split(&a);
+                    if a0.scheme != b0.scheme || a0.authority != b0.authority || a0.query != b0.query || a0.fragment != b0.fragment {
+                        ctx.fail("C09.frame", c09_feats("path_mut().normalize", t, shape), format!("path_mut().normalize() on {} = {} alters scheme, authority, query or fragment", show(b(&full)), show(&a)));
+                        continue;
+                    }
+                    let (aabs, asegs) = segs_owned(a0.path);
+                    let expect_abs = abs; // an authority is followed by "" or an absolute path either way
+                    if aabs != expect_abs && !(b0.authority.is_some() && t.is_empty()) {
+                        ctx.fail("C09.absoluteness", c09_feats("path_mut().normalize", t, shape), format!("path_mut().normalize() on {} = {} changes absoluteness of the path", show(b(&full)), show(&a)));
+                    } else if !(shield_eq(&asegs, &want_seq) || a0.path == &model::render_segments(abs, &want_seq.iter().map(|x| &x[..]).collect::<Vec<_>>())[..]) {
+                        ctx.fail("C09.inplace", c09_feats("path_mut().normalize", t, shape), format!("path_mut().normalize() on {} = {} (path segments {}) but the normalized sequence is {}", show(b(&full)), show(&a), segs_show(&asegs), segs_show(&want_seq)));
+                    }
+                    if a2 != a { ctx.fail("C09.idempotent", c09_feats("path_mut().normalize", t, shape), format!("path_mut().normalize() is not idempotent on {}: {} then {}", show(b(&full)), show(&a), show(&a2))); }
+                    if b0.scheme.is_some() {
+                        if let Ok(mut fb) = RiBuf::new(own(&full)) {
+                            if let Ok(fa) = crate::ctx::guard(|| { fb.path_mut().normalize(); fb.as_bytes().to_vec() }) {
+                                if fa != a { ctx.fail("C09.inplace", c09_feats("RiBuf.path_mut().normalize", t, shape), format!("RiBuf and RiRefBuf disagree on {}: {} vs {}", show(b(&full)), show(&fa), show(&a))); }
+                            }
+                        }
+                    }
+                }
+            }
+        }
+    }
+    if segs.iter().any(|s| *s == b"." || *s == b"..") { ctx.nontrivial_cur(); }
+}
